@@ -67,7 +67,7 @@ Section Conservative.
 
   Lemma body_xt_none st n : body_xt vt s no_extras recx st n = body_t vt s rect st n.
   Proof.
-    unfold body_xt, body_t. destruct (get_singleton_t s st n true) as [o0 [[st1 [v|]]|k st1]]; try reflexivity.
+    unfold body_xt, body_t, body_with. destruct (get_singleton_t s st n true) as [o0 [[st1 [v|]]|k st1]]; try reflexivity.
     destruct (begin_create (reg st1) n) as [r1 [v|]]; [reflexivity|]. rewrite create_xt_none. reflexivity.
   Qed.
 End Conservative.
@@ -111,3 +111,175 @@ Qed.
 Corollary run_xt_conservative vt s :
   snd (run_xt vt s no_extras) = run vt s /\ fst (run_xt vt s no_extras) = fst (run_t vt s).
 Proof. rewrite run_xt_none. split; [apply run_erase|reflexivity]. Qed.
+
+(* ---- the registry history of the EXTENDED semantics is in the strict protocol language as well ---------------
+   (short-circuited creations and lookups issued from inside Init included): same argument as
+   Proofs/FactoryTraceProofs.v, whose lemmas are parametric in the recursive call and in the creation function. *)
+From IocVerif Require Import Model.RegistryProto Proofs.RegistryProofs Proofs.FactoryBasics Proofs.FactoryLog.
+
+Section ProtoX.
+  Variable vt : variant.
+  Variable s : scenario.
+  Variable x : extras.
+  Variable rect : fstate -> name -> tres (fstate * ver).
+  Hypothesis Hgood : forall st d stk, Cov stk (reg st) -> FactoryTraceProofs.good vt pj2 stk (reg st) (rect st d).
+
+  (* a computation that issues no call and leaves the registry alone *)
+  Lemma good_nil_any {A : Type} (pj : A -> fstate) stk r0 (r : res A) : rreg pj r = r0 -> FactoryTraceProofs.good vt pj stk r0 ([], r).
+  Proof.
+    intros H. destruct r as [a|k st]; [apply good_nil_ok; exact H|apply good_nil_fail; exact H].
+  Qed.
+
+  (* ... appended to a successful one *)
+  Lemma good_ok_then_any {A B : Type} (pjA : A -> fstate) (pjB : B -> fstate) stk r0 o a (r : res B) :
+    rreg pjB r = reg (pjA a) -> FactoryTraceProofs.good vt pjA stk r0 (o, Ok a) -> FactoryTraceProofs.good vt pjB stk r0 (o, r).
+  Proof.
+    intros He H. destruct r as [b|k st]; cbn [rreg] in He.
+    - apply (good_ok_retag vt pjA pjB stk r0 o a b He H).
+    - apply (good_ok_then_fail vt pjA pjB stk r0 o a k st He H).
+  Qed.
+
+  Lemma init_gets_good n : forall ds j st stk,
+    Cov stk (reg st) -> FactoryTraceProofs.good vt pj1 stk (reg st) (init_gets_t rect n j ds st).
+  Proof.
+    induction ds as [|d r IH]; intros j st stk HS; cbn [init_gets_t]; [apply good_nil_ok; reflexivity|].
+    pose proof (Hgood st d stk HS) as H1.
+    destruct (rect st d) as [o1 [[st1 v]|k st1]]; [|exact H1].
+    assert (HS1 : Cov stk (reg (write_plain st1 n (100 + j) [v]))).
+    { destruct H1 as [_ [Hm _]]. exact (Cov_mono stk _ _ Hm HS). }
+    pose proof (IH (S j) (write_plain st1 n (100 + j) [v]) stk HS1) as H2.
+    destruct (init_gets_t rect n (S j) r (write_plain st1 n (100 + j) [v])) as [o2 r2].
+    apply (good_seq vt pj2 pj1 stk (reg st) o1 (st1, v) o2 r2 H1 H2).
+  Qed.
+
+  Lemma before_chain_rreg n c st : rreg pj1 (before_chain s n c (active st) st) = reg st.
+  Proof.
+    pose proof (before_chain_eff s n c (active st) st st (only_log_refl _ st)) as He.
+    destruct (before_chain s n c (active st) st) as [st1|k st1]; cbn [eff1] in He; destruct He as [Hr _ _ _ _ _ _]; exact Hr.
+  Qed.
+
+  Lemma after_chain_rreg n st cur : rreg pj2 (after_chain s n (active st) st cur) = reg st.
+  Proof.
+    pose proof (after_chain_eff s n (active st) st st cur (only_log_refl _ st)) as He.
+    destruct (after_chain s n (active st) st cur) as [[st1 w]|k st1]; cbn [eff2] in He; destruct He as [Hr _ _ _ _ _ _]; exact Hr.
+  Qed.
+
+  Lemma init_methods_rreg n c st : get_comp (s_pop s) n = Some c -> rreg pj1 (init_methods n c st) = reg st.
+  Proof.
+    intros Hc. pose proof (init_methods_eff s n c st st Hc (only_log_refl _ st)) as He.
+    destruct (init_methods n c st) as [st1|k st1]; cbn [eff1] in He; destruct He as [Hr _ _ _ _ _ _]; exact Hr.
+  Qed.
+
+  Lemma initialize_xt_good st n c stk :
+    get_comp (s_pop s) n = Some c -> Cov stk (reg st) ->
+    FactoryTraceProofs.good vt pj2 stk (reg st) (initialize_xt s x rect st n c).
+  Proof.
+    intros Hc HS. unfold initialize_xt. pose proof (before_chain_rreg n c st) as Hb.
+    destruct (before_chain s n c (active st) st) as [st1|k st1]; unfold rreg, pj1 in Hb; [|apply good_nil_fail; exact Hb].
+    assert (H1 : FactoryTraceProofs.good vt pj1 stk (reg st) (init_methods_xt x rect n c st1)).
+    { unfold init_methods_xt. pose proof (init_methods_rreg n c st1 Hc) as Hi.
+      destruct (init_methods n c st1) as [st2|k st2]; unfold rreg, pj1 in Hi; [|apply good_nil_fail; congruence].
+      destruct (c_init c); [|apply good_nil_ok; unfold pj1; congruence].
+      rewrite <- Hb, <- Hi. apply init_gets_good. rewrite Hi, Hb. exact HS. }
+    destruct (init_methods_xt x rect n c st1) as [o [st2|k st2]]; [|exact H1].
+    apply (good_ok_then_any pj1 pj2 stk (reg st) o st2 _ (after_chain_rreg n st2 None) H1).
+  Qed.
+
+  Lemma do_create_xt_good st n c stk :
+    get_comp (s_pop s) n = Some c -> Cov stk (reg st) ->
+    FactoryTraceProofs.good vt pj2 (n :: stk) (reg st) (do_create_xt vt s x rect st n c).
+  Proof.
+    intros Hc HS. unfold do_create_xt. cbv zeta.
+    set (st0 := set_reg st (add_factory (reg st) n n)).
+    assert (HS0 : Cov (n :: stk) (reg st0)).
+    { intros m [<-|Hm]; [apply cached_add_factory|apply mono_add_factory, HS, Hm]. }
+    pose proof (populate_good vt s rect Hgood st0 n c (n :: stk) HS0) as H1.
+    destruct (populate_t vt s rect st0 n c) as [o1 [st1|k1 st1]].
+    2:{ apply good_cons_addfactory. exact H1. }
+    assert (HS1 : Cov (n :: stk) (reg st1)) by (destruct H1 as [_ [Hm _]]; exact (Cov_mono _ _ _ Hm HS0)).
+    pose proof (initialize_xt_good st1 n c (n :: stk) Hc HS1) as Hi.
+    destruct (initialize_xt s x rect st1 n c) as [oi [[st2 w]|k2 st2]].
+    2:{ apply good_cons_addfactory. apply (good_seq vt pj1 pj2 (n :: stk) _ o1 st1 oi _ H1 Hi). }
+    pose proof (good_seq vt pj1 pj2 (n :: stk) _ o1 st1 oi _ H1 Hi) as H12.
+    pose proof (get_singleton_good vt s (n :: stk) st2 n false) as H2.
+    unfold get_singleton_t in H2 |- *. cbn [fst snd] in H2.
+    match goal with |- context [OGet n false ?f] => set (fo := f) in * end.
+    change (OAddFactory n n :: o1 ++ oi ++ [OGet n false fo]) with (OAddFactory n n :: (o1 ++ (oi ++ [OGet n false fo]))).
+    apply good_cons_addfactory. rewrite app_assoc.
+    pose proof (good_seq vt pj2 pj2 (n :: stk) (reg st0) (o1 ++ oi) (st2, w) [OGet n false fo] _ H12 H2) as H3.
+    destruct (get_singleton s st2 n false) as [[st3 [e|]]|k3 st3] eqn:EG.
+    - pose proof (get_singleton_false_state _ _ _ _ _ EG) as ->.
+      destruct w as [wv|].
+      + destruct (stale_dependents vt st2 n).
+        * apply (good_ok_retag vt pj2 pj2 _ _ _ (st2, Some e) (st2, wv) eq_refl H3).
+        * apply (good_ok_then_fail vt pj2 pj2 _ _ _ (st2, Some e) (FErr EStale) st2 eq_refl H3).
+      + apply (good_ok_retag vt pj2 pj2 _ _ _ (st2, Some e) (st2, e) eq_refl H3).
+    - pose proof (get_singleton_false_state _ _ _ _ _ EG) as ->.
+      apply (good_ok_retag vt pj2 pj2 _ _ _ (st2, None) (st2, match w with Some v => v | None => VOrig n end) eq_refl H3).
+    - exact H3.
+  Qed.
+
+  Lemma create_xt_good st n stk :
+    Cov stk (reg st) -> FactoryTraceProofs.good vt pj2 (n :: stk) (reg st) (create_xt vt s x rect st n).
+  Proof.
+    intros HS. unfold create_xt. destruct (scanned st); [|apply good_nil_fail; reflexivity].
+    destruct (get_comp (s_pop s) n) as [c|] eqn:Ec; [|apply good_nil_fail; reflexivity].
+    destruct (shorted x st n); [|apply do_create_xt_good; assumption].
+    apply good_nil_any. pose proof (after_chain_rreg n st None) as Ha.
+    destruct (after_chain s n (active st) st None) as [[st2 w]|k st2]; exact Ha.
+  Qed.
+End ProtoX.
+
+Theorem do_get_xt_good vt s x : forall fuel st n stk,
+  Cov stk (reg st) -> FactoryTraceProofs.good vt pj2 stk (reg st) (do_get_xt vt s x fuel st n).
+Proof.
+  induction fuel as [|f IH]; intros st n stk HS; cbn [do_get_xt].
+  - apply good_nil_fail. reflexivity.
+  - unfold body_xt. apply body_with_good; [|exact HS].
+    intros st0 n0 stk0 H0. apply create_xt_good; [intros st1 d stk1 H1; apply IH; exact H1|exact H0].
+Qed.
+
+Lemma prepare_loop_xt_good vt s x : forall ps st, FactoryTraceProofs.good vt pj1 [] (reg st) (prepare_loop_xt vt s x ps st).
+Proof.
+  induction ps as [|p r IH]; intros st; cbn [prepare_loop_xt]; [apply good_nil_ok; reflexivity|].
+  destruct (is_lazy (s_pop s) p); [apply (IH (set_active st (active st ++ [p])))|].
+  pose proof (do_get_xt_good vt s x (fuel_of s) st p [] (Cov_nil _)) as H1.
+  destruct (do_get_xt vt s x (fuel_of s) st p) as [o1 [[st1 v]|k st1]]; [|exact H1].
+  pose proof (IH (set_active st1 (active st1 ++ [p]))) as H2.
+  destruct (prepare_loop_xt vt s x r (set_active st1 (active st1 ++ [p]))) as [o2 r2].
+  apply (good_seq vt pj2 pj1 [] (reg st) o1 (st1, v) o2 r2 H1 H2).
+Qed.
+
+Lemma get_each_xt_good vt s x : forall ns st, FactoryTraceProofs.good vt pj1 [] (reg st) (get_each_xt vt s x ns st).
+Proof.
+  induction ns as [|n r IH]; intros st; cbn [get_each_xt]; [apply good_nil_ok; reflexivity|].
+  pose proof (do_get_xt_good vt s x (fuel_of s) st n [] (Cov_nil _)) as H1.
+  destruct (do_get_xt vt s x (fuel_of s) st n) as [o1 [[st1 v]|k st1]]; [|exact H1].
+  pose proof (IH st1) as H2. destruct (get_each_xt vt s x r st1) as [o2 r2].
+  apply (good_seq vt pj2 pj1 [] (reg st) o1 (st1, v) o2 r2 H1 H2).
+Qed.
+
+Theorem run_core_xt_good vt s x : FactoryTraceProofs.good vt pj1 [] rinit (run_core_xt vt s x).
+Proof.
+  unfold run_core_xt. destruct (s_loader_fail s); [apply good_nil_fail; reflexivity|].
+  pose proof (prepare_loop_xt_good vt s x (sorted_procs s) (set_scanned finit)) as H1.
+  change (reg (set_scanned finit)) with rinit in H1.
+  destruct (prepare_loop_xt vt s x (sorted_procs s) (set_scanned finit)) as [o1 [st1|k st1]]; [|exact H1].
+  pose proof (get_each_xt_good vt s x (eager_names s) st1) as H2.
+  destruct (get_each_xt vt s x (eager_names s) st1) as [o2 [st2|k st2]].
+  - pose proof (good_seq vt pj1 pj1 [] rinit o1 st1 o2 _ H1 H2) as H3.
+    apply (good_ok_then_any vt pj1 pj1 [] rinit (o1 ++ o2) st2 _ (call_runners_rreg s st2) H3).
+  - apply (good_seq vt pj1 pj1 [] rinit o1 st1 o2 _ H1 H2).
+Qed.
+
+(* every start of the extended semantics: strict protocol language, and the history replays to the final registry *)
+Theorem run_xt_conforms_strict vt s x : conforms_strict_v vt (fst (run_xt vt s x)) = true.
+Proof.
+  unfold conforms_strict_v, protocol_strict, trace, run_xt. rewrite strict_run_from.
+  pose proof (run_core_xt_good vt (normalise vt s) x) as [_ H].
+  destruct (snd (run_core_xt vt (normalise vt s) x)) as [a|[e| |] st]; [destruct H as [_ ->]|destruct H as [fl ->]
+    |destruct H as [stk' [fl ->]]|destruct H as [stk' [fl ->]]]; reflexivity.
+Qed.
+
+Theorem run_xt_replay vt s x : state_after vt (fst (run_xt vt s x)) = rreg pj1 (snd (run_xt vt s x)).
+Proof. unfold state_after, run_xt. exact (proj1 (run_core_xt_good vt (normalise vt s) x)). Qed.
